@@ -45,6 +45,14 @@ fn main() {
         props::c10::worker(seed, n);
         return;
     }
+    if id == "__c18worker" {
+        let seed: u64 = args.get(2).and_then(|s| s.parse().ok()).unwrap_or(0);
+        let n: usize = args.get(3).and_then(|s| s.parse().ok()).unwrap_or(100);
+        let t: usize = args.get(4).and_then(|s| s.parse().ok()).unwrap_or(16);
+        vh::exec::install_quiet_panic_hook();
+        props::c18::worker(seed, n, t);
+        return;
+    }
     if id == "selftest" {
         match selftest() {
             Ok(n) => {
